@@ -19,6 +19,7 @@ package main
 //   C09 definitions-not-position-independent                op `move`: Convert(defs ++ D) == Convert(D ++ "\n\n" ++ defs), defs at the end with / without the final newline(s)
 //   C05 transform-lines-not-wellformed                      the probe: lines of a paragraph at transform time
 //   C02 closer-on-padded-line-differs                       the regression inputs `cvPrescribed` (repair 9e57c92): prescribed HTML / the spaces-only twin
+//   C02 link-*-differs                                      the regression inputs of the repaired link-scanner defects in `cvPrescribed` (package linkfix)
 //   *   read-only-paragraph-transformer-changes-output      the probe instance (a transformer that only reads) renders differently
 
 import (
@@ -472,7 +473,9 @@ var cvFixed = []string{
 // same document): the white space in front of a title's continuation line is inside the title with goldmark whichever way
 // it is spelled (cmark drops it: a separate, older deviation - notes/status_escfix.md), so only the twin is spelling-independent.
 // Every entry is also compared with the Lean model like any other document.
-type cvPresc struct{ src, want, twin string }
+// Entries with a `clause` are regression inputs of the repaired defects of the inline link scanner (package linkfix; KNOWN_FINDINGS
+// `fixed:` 5e850d1 ... fb85ad2), HTML derived by hand from CommonMark 0.31.2 6.3 / 4.7 (cf. component cmlink, cmlinkFixed).
+type cvPresc struct{ src, want, twin, clause string }
 
 var cvPrescribed = []cvPresc{
 	{src: "> [a\n>\tb]: /u\n\n[a b]", want: "<blockquote>\n</blockquote>\n<p><a href=\"/u\">a b</a></p>\n"},
@@ -489,6 +492,27 @@ var cvPrescribed = []cvPresc{
 	{src: "> [a]: /u\n>\t\"t\n>\tu\"\n\n[a]\n", twin: "> [a]: /u\n>   \"t\n>   u\"\n\n[a]\n"},
 	{src: "- [a]: /u \"t\n\tu\"\n\n[a]\n", twin: "- [a]: /u \"t\n    u\"\n\n[a]\n"},
 	{src: "1. [a]: /u \"t\n\tu\"\n\n[a]\n", twin: "1. [a]: /u \"t\n    u\"\n\n[a]\n"},
+	// L5: only `[]` makes a collapsed reference; brackets around white space are no label, `[a]` is a shortcut reference
+	{src: "[a][ ]\n\n[a]: /u\n", want: "<p><a href=\"/u\">a</a>[ ]</p>\n", clause: "link-label-blank-differs"},
+	{src: "![a][\n]\n\n[a]: /u\n", want: "<p><img src=\"/u\" alt=\"a\" />[\n]</p>\n", clause: "link-label-blank-differs"},
+	{src: "[a][\t] [a][]\n\n[a]: /u\n", want: "<p><a href=\"/u\">a</a>[\t] <a href=\"/u\">a</a></p>\n", clause: "link-label-blank-differs"},
+	{src: "[b][ ]\n\n[a]: /u\n", want: "<p>[b][ ]</p>\n", clause: "link-label-blank-differs"},
+	// L1: the first form of a destination "contains no line endings or unescaped < or > characters" (examples 491, 493); shared with
+	// link reference definitions (4.7) through parseLinkDestination
+	{src: "[a](<b<c>)", want: "<p>[a](&lt;b<c>)</p>\n", clause: "link-destination-pointy-differs"},
+	{src: "[a](<<>)", want: "<p>[a](&lt;&lt;&gt;)</p>\n", clause: "link-destination-pointy-differs"},
+	{src: "[a]: <b<c>\n\n[a]\n", want: "<p>[a]: &lt;b<c></p>\n<p>[a]</p>\n", clause: "link-destination-pointy-differs"},
+	{src: "[a](<b\\<c>) [a](<b\\>c>)\n", want: "<p><a href=\"b%3Cc\">a</a> <a href=\"b%3Ec\">a</a></p>\n", clause: "link-destination-pointy-differs"},
+	// L2: the second form may contain parentheses only "if (a) they are backslash-escaped or (b) they are part of a balanced pair" (example 497)
+	{src: "[a](b(c )", want: "<p>[a](b(c )</p>\n", clause: "link-destination-unbalanced-paren-differs"},
+	{src: "[a](( \"t\")", want: "<p>[a](( &quot;t&quot;)</p>\n", clause: "link-destination-unbalanced-paren-differs"},
+	{src: "[a]: b(c\n\n[a]\n", want: "<p>[a]: b(c</p>\n<p>[a]</p>\n", clause: "link-destination-unbalanced-paren-differs"},
+	{src: "[a](b(c)) [a](b\\(c )\n", want: "<p><a href=\"b(c)\">a</a> <a href=\"b(c\">a</a></p>\n", clause: "link-destination-unbalanced-paren-differs"},
+	// L3: "If both link destination and link title are present, they must be separated by spaces, tabs, and up to one line ending"
+	{src: "[a](<b>\"t\")", want: "<p>[a](<b>&quot;t&quot;)</p>\n", clause: "link-title-without-separator-differs"},
+	{src: "[a](<>(t))", want: "<p>[a](&lt;&gt;(t))</p>\n", clause: "link-title-without-separator-differs"},
+	{src: "![a](<b>'t')\n", want: "<p>![a](<b>'t')</p>\n", clause: "link-title-without-separator-differs"},
+	{src: "[a](<b> \"t\") [a](<b>\n\"t\")\n", want: "<p><a href=\"b\" title=\"t\">a</a> <a href=\"b\" title=\"t\">a</a></p>\n", clause: "link-title-without-separator-differs"},
 }
 
 var cvPrescribedOnce sync.Once
@@ -515,7 +539,11 @@ func cvCheckPrescribed(src []byte, got []byte) *OracleFail {
 		want, how = w, fmt.Sprintf("the spaces-only twin %q renders (CommonMark 2.2)", p.twin)
 	}
 	if !bytes.Equal(got, want) {
-		return &OracleFail{"C02", "closer-on-padded-line-differs", fmt.Sprintf("source=%q goldmark=%q %s=%q", src, got, how, want)}
+		clause := "closer-on-padded-line-differs"
+		if p.clause != "" {
+			clause, how = p.clause, "CommonMark 6.3/4.7 prescribes"
+		}
+		return &OracleFail{"C02", clause, fmt.Sprintf("source=%q goldmark=%q %s=%q", src, got, how, want)}
 	}
 	return nil
 }
